@@ -1,6 +1,7 @@
 package main
 
 import (
+	"encoding/json"
 	"flag"
 	"fmt"
 	"os"
@@ -22,7 +23,25 @@ func main() {
 	repo := flag.String("repo", "/repo", "repository root")
 	verif := flag.String("verif", "/verif", "verif root (evidence, known findings)")
 	dump := flag.Bool("dump", false, "print every obligation")
+	overlay := flag.String("overlay", "", "JSON file {absolute source path: replacement content} (self-test variants)")
 	flag.Parse()
+	if *overlay != "" {
+		raw, err := os.ReadFile(*overlay)
+		if err != nil {
+			fmt.Printf("CHECKER-ERROR: overlay: %v\n", err)
+			os.Exit(2)
+		}
+		m := map[string]string{}
+		if err := json.Unmarshal(raw, &m); err != nil {
+			fmt.Printf("CHECKER-ERROR: overlay: %v\n", err)
+			os.Exit(2)
+		}
+		overlayFiles = map[string][]byte{}
+		for k, v := range m {
+			overlayFiles[k] = []byte(v)
+		}
+	}
+
 	// go/packages runs `go list`; it must be the toolchain the checker was built with (the
 	// system go is older than /repo's go.mod requires).
 	os.Setenv("PATH", "/opt/veriftools/go1.26.8/bin:"+os.Getenv("PATH"))
